@@ -1,3 +1,4 @@
+import Upd.Index
 /-! scratch pilot: blob + upload-session handlers (blob.go, mem.go) as a state machine over a line protocol -/
 namespace Upd
 
@@ -17,10 +18,13 @@ def H (a : Alg) (bytes : String) : Dig := ⟨a, bytes⟩
 /-- outcome of digest.Parse on a request string -/
 inductive DigArg | ok (d : Dig) | bad deriving Repr
 def DigArg.parse (s : String) : DigArg :=
+  -- split at the FIRST ':' only (content names may contain ':')
   match s.splitOn ":" with
-  | [a, c] => match Alg.parse? a with
-      | some alg => if c.isEmpty then .bad else .ok ⟨alg, if c = "~" then "" else c⟩
-      | none => .bad
+  | a :: c0 :: rest =>
+    let c := ":".intercalate (c0 :: rest)
+    match Alg.parse? a with
+    | some alg => if c.isEmpty then .bad else .ok ⟨alg, if c = "~" then "" else c⟩
+    | none => .bad
   | _ => .bad
 
 structure Upload where
@@ -35,12 +39,30 @@ structure Repo where
   name : String
   blobs : List (Dig × String) := []
   uploads : List Upload := []
+  index : Index := {}
+  deriving Repr
+
+/-- a manifest body as the handlers can see it after `json.Unmarshal` -/
+structure Body where
+  kind : String := "junk"      -- image | index | junk | obj
+  mtField : String := ""
+  cfg : String := ""
+  cfgMt : String := ""
+  layers : List String := []
+  children : List Desc := []
+  subj : String := ""
+  atype : String := ""
+  rann : String := ""
+  len : Nat := 0
   deriving Repr
 
 structure State where
   repos : List Repo := []
   nextKey : Nat := 1
   names : List (Nat × Nat) := []      -- internal key ↦ public session number, assigned at first appearance
+  defs : List (String × Body) := []   -- manifest bodies by content name
+  resps : List (String × List Desc) := []          -- referrers responses by content name
+  rcache : List ((String × String) × List Desc) := []   -- page cache: (response digest, filter) ↦ served list
   deriving Repr
 
 def State.repo (s : State) (r : String) : Repo := (s.repos.find? (·.name = r)).getD { name := r }
@@ -105,9 +127,13 @@ structure Resp where
   range : String := ""
   dcd : String := ""
   body : String := "-"
+  ct : String := ""
+  subj : String := ""
+  filt : String := ""
+  link : String := ""
 
 def Resp.line (r : Resp) : String :=
-  s!"{r.status} code={r.code} loc={r.loc} range={r.range} dcd={r.dcd} body={r.body}"
+  s!"{r.status} code={r.code} loc={r.loc} range={r.range} dcd={r.dcd} body={r.body} ct={r.ct} subj={r.subj} filt={r.filt} link={r.link}"
 
 def rangeHdr (size : Nat) : String := if size = 0 then "0--1" else s!"0-{size - 1}"
 
